@@ -31,9 +31,10 @@ func pickScript(target Protocol, unaryKind bool, svcComp bool) (*respScript, int
 			s.errCode = [3]uint32{1, 16, 17}[verifChoose("code", 3)]
 		}
 		s.errMsg = "Zz"
-		if verifChoose("details", 2) == 1 {
+		if d := verifChoose("details", 3); d >= 1 {
 			// two details; the second one's bytes encode to base64 with '+' and '/'
 			s.details = []refDetail{{typ: "p.D", val: []byte{'v'}}, {typ: "p.E", val: []byte{0xfb, 0xff}}}
+			s.padDetails = d == 2 // (gRPC family: the binary trailer in padded base64)
 		}
 		if verifTier() == 1 && pipeThoroughSlice == sliceDeepScript {
 			s.errMsg = [3]string{"m", "Zz", "~"}[verifChoose("errmsg", 3)]
